@@ -85,7 +85,7 @@ struct WorldSim {
 		if (e.behav == B_CONF_ONLY || e.behav == B_TRUNCATED) e.behav = B_GARBAGE_PDU; // a lone config / a short frame leaves the blocking reader waiting: covered by fault 3
 		e.subseed = (uint64_t)op.arg(base + 1);
 		e.chunk = (size_t)op.arg(base + 2);
-		e.fault = plan.c("faults", 1) ? (int)(op.arg(base + 3) % 4) : 0;
+		e.fault = plan.c("faults", 1) ? (int)(op.arg(base + 3) % 5) : 0;
 		e.fault_at = (size_t)op.arg(base + 4);
 		e.reply_delay_ms = (int)op.arg(base + 5);
 		return e;
@@ -386,7 +386,7 @@ struct WorldEngine : run::Engine {
 			a.push_back(g.chance(1, 2) ? 0 : (int64_t)g.below(B__COUNT));          // behaviour
 			a.push_back((int64_t)g.below(1 << 30));                                  // subseed
 			a.push_back(g.chance(1, 2) ? 0 : g.pickl<int64_t>({1, 2, 3, 4, 5, 17, 100, 1000})); // chunk
-			a.push_back(g.chance(2, 3) ? 0 : (int64_t)g.range(1, 3));                 // fault
+			a.push_back(g.chance(2, 3) ? 0 : (int64_t)g.range(1, 4));                 // fault
 			a.push_back(g.chance(1, 3) ? (int64_t)g.below(8) : (int64_t)g.below(1200)); // fault_at
 			a.push_back(g.chance(3, 4) ? 0 : g.pickl<int64_t>({300, 999, 1500, 4000, 12000})); // reply delay
 		};
